@@ -47,6 +47,7 @@ F = [
  ("C02","F20","known","","known/C02/F20-escaped-amp-in-url.json","[a](\\&amp;) renders href=\"&amp;\": a backslash-escaped '&' in a destination is unescaped first and then resolved as a character reference (URLEscape makes three passes; a repair needs a single-pass rewrite)"),
  ("C01","F25","fixed",commit("non-string id"),"known/C01/F25-numeric-heading-id.json","'# a {id=1}' with WithAttribute and WithAutoHeadingID panicked (type assertion on a float64 id); reported by the sub-agent that seeded C01 and then rediscovered by the enriched attribute tokens"),
  ("C01","F25b","fixed",commit("non-string id"),"known/C01/F25-setext-bool-id.json","the same for a Setext heading with a boolean id"),
+ ("C01","F26","fixed",commit("fenced code line indented less"),"known/C01/F26-fence-line-padding.json","'+' / TAB SPACE '~~~' / TAB '=': a fenced code content line with fewer columns than the fence indent, carrying tab padding inside a list item, produced a segment that starts past its end: panic while rendering (found by the thorough tier of C03, present on the pinned tree)"),
 ]
 EXTRA = os.path.join(os.path.dirname(__file__), "known_extra.json")
 out = []
